@@ -333,6 +333,12 @@ def global_table_caches(ctx, modname):
                             val_from_self = True  # `super().m(...)` works on the receiver too
                 else:
                     val_from_self = any(isinstance(x, ast.Name) and x.id == "self" for x in ast.walk(fn))
+                if not val_from_self:
+                    # values assembled by mutation (appends in a loop) do not show in the origins of the stored name: a method that
+                    # reads other attributes of its receiver computes something that depends on the receiver
+                    tattr = tname.split(".")[-1]
+                    val_from_self = any(isinstance(x, ast.Attribute) and isinstance(x.ctx, ast.Load) and dotted(x.value) == "self" and x.attr != tattr
+                                        and ("%s.%s" % (qn.split(".")[0], x.attr)) not in mod.functions for x in ast.walk(fn))
                 if val_from_self:
                     kat = set()
                     bare_self = False
